@@ -71,17 +71,23 @@ theorem mlLoop_reach (count1 : Nat) (ch : Int) (buf : Buf) (s : Sc) (b : Buf) (s
   · rename_i ch buf s _ _ ih
     exact .step (ih h)
 
+theorem scanMultilineBody_reach (count1 : Nat) (buf : Buf) (s : Sc) (b : Buf) (s' : Sc)
+    (h : scanMultilineBody count1 buf s = .ok (b, s')) : Reach s s' := by
+  unfold scanMultilineBody at h
+  simp only [] at h
+  have h0 := mlLoop_reach _ _ _ _ _ _ h
+  refine Reach.trans ?_ h0
+  split
+  · exact .step (.step (.refl _))
+  · exact .step (.refl _)
+
 theorem scanMultilineString_reach (ch : Int) (buf : Buf) (s : Sc) (b : Buf) (s' : Sc)
     (h : scanMultilineString ch buf s = .ok (b, s')) : Reach s s' := by
   unfold scanMultilineString at h
   simp only [] at h
   split at h
   · simp at h
-  · have h0 := mlLoop_reach _ _ _ _ _ _ h
-    refine (countSep_reach ch s).trans (Reach.trans ?_ h0)
-    split
-    · exact .step (.step (.refl _))
-    · exact .step (.refl _)
+  · exact (countSep_reach ch s).trans (scanMultilineBody_reach _ _ _ _ _ h)
 
 theorem lineCommentLoop_reach (ch : Int) (s : Sc) : Reach s (lineCommentLoop ch s) := by
   fun_induction lineCommentLoop ch s
@@ -93,12 +99,18 @@ theorem skipComments_reach (ch : Int) (s s' : Sc) (h : skipComments ch s = .ok s
   split at h
   · simp only [] at h
     split at h
-    · split at h
-      · simp at h
-      · rename_i b s'' hs
-        simp only [Except.ok.injEq] at h
+    · have hc : Reach s (countSep (next (next s).2).1 (next (next s).2).2).2.2 :=
+        .step (.step (countSep_reach _ _))
+      split at h
+      · split at h
+        · simp at h
+        · rename_i b s'' hs
+          simp only [Except.ok.injEq] at h
+          rw [← h]
+          exact hc.trans (scanMultilineBody_reach _ _ _ _ _ hs)
+      · simp only [Except.ok.injEq] at h
         rw [← h]
-        exact .step (.step (scanMultilineString_reach _ _ _ _ _ hs))
+        exact hc.trans (lineCommentLoop_reach _ _)
     · simp only [Except.ok.injEq] at h
       rw [← h]; exact .step (lineCommentLoop_reach _ _)
   · simp only [Except.ok.injEq] at h
@@ -143,15 +155,17 @@ theorem scanNumberTail_reach (ch : Int) (buf : Buf) (s : Sc) (b : Buf) (s' : Sc)
   have h2 := scanNumberExpPre_reach (scanNumberFrac ch buf s)
   split at h
   · split at h
-    · simp only [Except.ok.injEq] at h
+    · have he := numeralEnd_ok _ _ _ _ h
+      simp only [Prod.mk.injEq] at he
       have h3 := decimalLoop_reach (writeChar (scanNumberExpPre (scanNumberFrac ch buf s)).1
         (next (scanNumberExpPre (scanNumberFrac ch buf s)).2).1) (next (scanNumberExpPre (scanNumberFrac ch buf s)).2).2
-      unfold scanDecimal at h
-      rw [h] at h3
+      unfold scanDecimal at he
+      rw [he.2]
       exact (h1.trans h2).trans (.step h3)
     · simp at h
-  · simp only [Except.ok.injEq] at h
-    rw [h] at h1; exact h1
+  · have he := numeralEnd_ok _ _ _ _ h
+    simp only [Prod.mk.injEq] at he
+    rw [he.2]; exact h1
 
 theorem scanNumber_reach (ch : Int) (buf : Buf) (s : Sc) (b : Buf) (s' : Sc)
     (h : scanNumber ch buf s = .ok (b, s')) : Reach s s' := by
@@ -160,8 +174,9 @@ theorem scanNumber_reach (ch : Int) (buf : Buf) (s : Sc) (b : Buf) (s' : Sc)
   · simp only [] at h
     split at h
     · simp at h
-    · simp only [Except.ok.injEq, Prod.mk.injEq] at h
-      rw [← h.2]; exact .step (hexLoop_reach _ _ _)
+    · have he := numeralEnd_ok _ _ _ _ h
+      simp only [Prod.mk.injEq] at he
+      rw [he.2]; exact .step (hexLoop_reach _ _ _)
   · exact scanNumberTail_reach _ _ _ _ _ h
 
 theorem escDigits_reach (i : Nat) (val : Nat) (s : Sc) : Reach s (escDigits i val s).2 := by
@@ -405,7 +420,7 @@ theorem skipBlanks_reach (s : Sc) : Reach s (skipBlanks s).2.1 := by
 
 /-- one `Scan` call preserves the line invariant, and the token it returns (other than EOF) carries the Spec's
     line of its first byte. -/
-theorem scan_line (input : List UInt8) (prev : Int) (s : Sc) (t : Token) (pnl : Bool) (s' : Sc)
+theorem scan_line (input : List UInt8) (prev : Prev) (s : Sc) (t : Token) (pnl : Bool) (s' : Sc)
     (hI : LineInv input s) (h : scan prev s = .tok t pnl s') :
     LineInv input s' ∧ (0 ≤ t.type → (lineMap 1 input)[t.off]? = some t.line) := by
   fun_induction scan prev s
@@ -436,7 +451,7 @@ theorem scan_line (input : List UInt8) (prev : Int) (s : Sc) (t : Token) (pnl : 
     rw [tl, pl, toff ht, po]
     simpa using pm
 
-theorem lexAll_line (input : List UInt8) (prev : Int) (s : Sc) (hI : LineInv input s) :
+theorem lexAll_line (input : List UInt8) (prev : Prev) (s : Sc) (hI : LineInv input s) :
     ∀ p ∈ (lexAll prev s).toks, 0 ≤ p.1.type → (lineMap 1 input)[p.1.off]? = some p.1.line := by
   fun_induction lexAll prev s
   · intro p hp; simp at hp
@@ -453,13 +468,13 @@ theorem lexAll_line (input : List UInt8) (prev : Int) (s : Sc) (hI : LineInv inp
     · subst hp; exact hl hty
     · exact ih hI' p hp hty
 
-theorem lexAll_length (prev : Int) (s : Sc) : (lexAll prev s).toks.length ≤ s.rest.length + 1 := by
+theorem lexAll_length (prev : Prev) (s : Sc) : (lexAll prev s).toks.length ≤ s.rest.length + 1 := by
   fun_induction lexAll prev s
   · simp
   · simp
   · rename_i prev s t pnl s' hs ht r ih
     have := scan_progress prev s t pnl s' hs (by omega)
-    show ((t, pnl) :: (lexAll t.type s').toks).length ≤ s.rest.length + 1
+    show ((t, pnl) :: (lexAll { type := t.type, line := t.line } s').toks).length ≤ s.rest.length + 1
     simp only [List.length_cons]
     omega
 
